@@ -498,6 +498,7 @@ func verifLemmaSourceConnected(o *IPFSLog, A iface.IPFSLogOrderedEntries) {
 //@ @load assert "next := entry.NewOrderedMap()" [every-unreferenced-entry-is-a-computed-head] old(len(options.Heads)) == 0 && old(options.Entries) != nil ==> forall k string :: has(omv(options.Entries), k) ==> (exists r int :: 0 <= r && r < len(options.Heads) && options.Heads[r] == omv(options.Entries)[k]) || namedIn(options.Entries, k)
 //@ @load ensures [new-log-keeps-a-given-id] err == nil && options != nil && old(options.ID) != "" ==> result0.ID == old(options.ID)
 //@ @load ensures [new-log-with-given-heads-has-exactly-those-heads] err == nil && options != nil && old(len(options.Heads)) > 0 ==> forall k string :: has(hds(result0), k) <==> (exists i int :: 0 <= i && i < old(len(options.Heads)) && old(options.Heads[i]) != nil && ehash(old(options.Heads[i])) == k)
+//@ @load ensures [new-log-heads-are-entries-when-the-given-heads-are] err == nil && options != nil && old(options.Entries) != nil && (forall i int :: 0 <= i && i < old(len(options.Heads)) && old(options.Heads[i]) != nil ==> has(omv(old(options.Entries)), ehash(old(options.Heads[i])))) ==> forall k string :: has(hds(result0), k) ==> has(ent(result0), k)
 //@ @load ensures [new-log-without-given-heads-takes-the-unreferenced-entries] err == nil && options != nil && old(len(options.Heads)) == 0 && old(options.Entries) != nil ==> (forall k string :: has(hds(result0), k) ==> has(ent(result0), k) && notNamedIn(result0.Entries, k)) && (forall k string :: has(ent(result0), k) ==> has(hds(result0), k) || namedIn(result0.Entries, k))
 //@   lockensures err == nil ==> held[result0.lock] == 0
 //@   loop 0
